@@ -49,10 +49,10 @@ def new_interp(sources=None):
     return it
 
 
-def list_proofs(modname, sources=None):
+def list_proofs(modname, sources=None, kind='proof'):
     it = new_interp(sources)
     it.import_module(modname)
-    return [(p.prop, p.name) for p in it.proofs]
+    return [(p.prop, p.name) for p in it.proofs if p.kind == kind]
 
 
 def run_proof(modname, proofname, opts=None, sources=None):
@@ -178,12 +178,12 @@ def _job(args):
     return run_proof(*args)
 
 
-def property_tasks(prop, opts=None, sources=None, only=None):
+def property_tasks(prop, opts=None, sources=None, only=None, kind='proof'):
     tasks = []
     for modname in contract_modules():
         if prop not in props_of_module(modname):
             continue
-        for p, name in list_proofs(modname, sources):
+        for p, name in list_proofs(modname, sources, kind):
             ps = p if isinstance(p, (list, tuple)) else [p]
             if prop in ps and (only is None or name in only):
                 tasks.append((modname, name, opts, sources))
